@@ -261,6 +261,15 @@ func runDefects(tier string, seed int64, langs []int) {
 			}
 			recCheck(s, L, Event{"cls": "count"})
 		}
+		// every token unknown, at every count (the count decides: ErrWordLen only when the count is wrong)
+		for n := 10; n <= 26; n++ {
+			recCheck(strings.TrimSpace(strings.Repeat("qqqq ", n)), L, Event{"cls": "allunknown"})
+			ts := make([]string, n)
+			for i := range ts {
+				ts[i] = "zz" + string(rune('a'+i))
+			}
+			recCheck(strings.Join(ts, " "), L, Event{"cls": "allunknown"})
+		}
 		for _, size := range sizes {
 			idx := indicesOf(r.bytes(size))
 			w := len(idx)
